@@ -11,14 +11,14 @@ patch=$(readlink -f $patch)
 if [ -n "$IN_REPO" ]; then
   git -C /repo status --short | grep -q . && { echo "/repo not clean"; exit 9; }
   git -C /repo apply $patch || exit 9
-  ./check $prop $tier > /tmp/try-$prop.log 2>&1; rc=$?
+  ./check $prop $tier > ${TRY_LOG:-/tmp/try-$prop.log} 2>&1; rc=$?
   git -C /repo checkout -- .
 else
   wt=${TRY_WT:-/tmp/seeded-try}
   [ -d $wt ] || git -C /repo worktree add --detach $wt HEAD >/dev/null 2>&1 || exit 9
   git -C $wt checkout -q --detach $(git -C /repo rev-parse HEAD) && git -C $wt checkout -q -- . || exit 9
   git -C $wt apply $patch || exit 9
-  VERIF_REPO=$wt ./check $prop $tier > /tmp/try-$prop.log 2>&1; rc=$?
+  VERIF_REPO=$wt ./check $prop $tier > ${TRY_LOG:-/tmp/try-$prop.log} 2>&1; rc=$?
   git -C $wt checkout -q -- .
 fi
-echo "$d $prop $tier exit=$rc $(grep -a -c VIOLATION /tmp/try-$prop.log) violation lines; first: $(grep -a -m1 counterexample /tmp/try-$prop.log | cut -c1-260)"
+echo "$d $prop $tier exit=$rc $(grep -a -c VIOLATION ${TRY_LOG:-/tmp/try-$prop.log}) violation lines; first: $(grep -a -m1 counterexample ${TRY_LOG:-/tmp/try-$prop.log} | cut -c1-260)"
